@@ -225,13 +225,17 @@ def scenarios(fam, ref):
             out.append(('nu degree %d %s %d cells' % (degree, family, ncells), mk()))
     elif fam == 'cu':
         for ncells in ((1, 3) if TIER[0] == 'quick' else (1, 2, 3, 5)):
-            def mk(ncells=ncells):
+            def mk(ncells=ncells, below=False):
                 def run(mod, ctx):
                     xmin, dx = Fr(-1), Fr(1, 2)
                     kn = numenv.karr([xmin, xmin + dx * ncells, dx, ncells])
                     kn2 = numenv.karr([Fr(2), Fr(2) + Fr(1, 3) * ncells, Fr(1, 3), ncells])
                     x = SReal(z3.Real('x'))
-                    ctx.assume(z3.And(x.t >= z3.RealVal(xmin), x.t <= z3.RealVal(xmin + dx * ncells)))
+                    if below:
+                        # extrapolation just below the domain (int() truncates toward zero there: the first cell is continued)
+                        ctx.assume(z3.And(x.t >= z3.RealVal(xmin - dx / 2), x.t <= z3.RealVal(xmin)))
+                    else:
+                        ctx.assume(z3.And(x.t >= z3.RealVal(xmin), x.t <= z3.RealVal(xmin + dx * ncells)))
                     y = SReal(z3.Real('y'))
                     ctx.assume(z3.And(y.t >= 2, y.t <= z3.RealVal(Fr(2) + Fr(1, 3) * ncells)))
                     n = ncells + 3
@@ -262,6 +266,8 @@ def scenarios(fam, ref):
                     return res
                 return run
             out.append(('uniform cubic %d cells' % ncells, mk()))
+            if ncells == 3:
+                out.append(('uniform cubic %d cells, x up to half a cell below xmin' % ncells, mk(below=True)))
 
         def cell_edges(mod, ctx):
             # float-only: evaluation points computed as k * dx on a grid with dx = 0.1 (quotients that round to whole numbers)
@@ -517,6 +523,26 @@ def work(item):
                                   dict(kind='copy', copy=copy_rel, missing=missing)))
     else:
         res['discharged'] += 1
+    # same call interface: number of parameters and default values (a call that leaves an optional argument out must mean the same)
+    for fn in sorted(set(rf) & set(cf)):
+        res['obligations'] += 1
+        try:
+            pr = [(q.kind, q.default) for q in inspect.signature(rf[fn]).parameters.values()]
+            pc = [(q.kind, q.default) for q in inspect.signature(cf[fn]).parameters.values()]
+        except (TypeError, ValueError):
+            res['discharged'] += 1
+            continue
+        # every call the reference accepts must mean the same for the copy: same number of parameters, and where the reference
+        # has a default value the copy has the same one (a default that only the copy offers changes no call of the reference)
+        E = inspect.Parameter.empty
+        bad = [i for i, (a, b) in enumerate(zip(pr, pc)) if a[0] != b[0] or (a[1] is not E and (b[1] is E or a[1] != b[1]))]
+        if len(pr) != len(pc) or bad:
+            names = list(inspect.signature(rf[fn]).parameters)
+            diff = [names[i] for i in bad] or ['number of parameters %d / %d' % (len(pr), len(pc))]
+            res['violations'].append(('copies:signature:%s:%s' % (copy_rel, fn), '%s: %s has other parameters / default values than the reference (%s)' % (shown, fn, ', '.join(diff)),
+                                      dict(kind='copy', copy=copy_rel, function=fn, reference=[repr(x[1]) for x in pr], found=[repr(x[1]) for x in pc])))
+        else:
+            res['discharged'] += 1
     numenv.enable(extra_modules=[(ref, None)] if fam in ('init', 'poisson', 'adv') else [])
     if fam == 'adv':
         numenv.patch_module(H.repo_import('pygyro.initialisation.initialiser_funcs'))
